@@ -23,7 +23,7 @@ pub static PROP: PropDef = PropDef {
         "a valid request has at least 167 bytes of pseudo fields in this generator, a response 42: smaller boundaries are swept with trailers",
     ],
     tape_len: 120,
-    random_cases: |t| t.pick(30_000, 1_000_000),
+    random_cases: |t| t.pick(100_000, 2_000_000),
     run_tape,
     exhaustive: Some(exhaustive),
     run_direct: Some(run_direct),
